@@ -165,6 +165,49 @@ def examine(ctx, recipe, items) -> None:
                         break
 
 
+def history_case(ctx, recipe) -> None:
+    """the default colour limits span the plotted values whatever was drawn earlier in the process:
+    plot `a`; animate `t` over time (another figure); plot `a` again"""
+    import pandas as pd
+    import xarray as xr
+    from matplotlib.collections import PolyCollection
+    from matplotlib.figure import Figure
+    built = G.build(recipe)
+    ds = built.ds.assign_coords(time=xr.DataArray(pd.date_range('2001-01-01', periods=built.ds.sizes['time']).values, dims=['time']))
+    built.ds = ds
+    c = G.bind(built)
+    desc = {'recipe': recipe, 'history': ['plot a', 'animate t over time', 'plot a']}
+    flat = np.asarray(c.ravel(ds['a']).values, dtype='f8')[np.asarray(c.mask)]
+    if flat.size == 0 or np.isnan(flat).all():
+        return
+    want = (float(np.nanmin(flat)), float(np.nanmax(flat)))
+
+    seen: list = []
+
+    def plot_a(label):
+        fig = Figure()
+        c.plot_on_figure(fig, scalar=ds['a'], coast=False, gridlines=False)
+        pcs = [a for ax in fig.axes for a in ax.collections if isinstance(a, PolyCollection)]
+        ctx.evaluated()
+        if len(pcs) != 1:
+            ctx.oracle_fail('plot-on-figure-collections', desc, f'{label}: {len(pcs)} polygon collections on the figure')
+            return
+        clim = tuple(float(v) for v in pcs[0].get_clim())
+        seen.append(clim)
+        if seen[0] != clim:
+            ctx.oracle_fail('default-clim-depends-on-history', {**desc, 'at': label},
+                            f'{label}: default colour limits {clim}, the same plot gave {seen[0]} before')
+        # (a single plotted value: matplotlib's colour bar widens the degenerate range itself)
+        elif clim != want and want[0] != want[1]:
+            ctx.oracle_fail('default-clim-depends-on-history', {**desc, 'at': label},
+                            f'{label}: default colour limits {clim}, the plotted values span {want}')
+    plot_a('first plot')
+    c.animate_on_figure(Figure(), coordinate=ds['time'], scalar=ds['t'], coast=False, gridlines=False)
+    plot_a('plot after an animation of another variable')
+    ctx.count('history:plot-animate-plot')
+    ctx.nontrivial((str(recipe), 'history'))
+
+
 def make_recipe(ctx, k):
     rng = ctx.rng
     conv = G.CONVS[k % len(G.CONVS)]
@@ -189,6 +232,8 @@ def run(ctx) -> None:
     for k in range(ctx.budget(40, 400)):
         recipe = make_recipe(ctx, k)
         ctx.guarded(lambda: examine(ctx, recipe, items), {'recipe': recipe})
+        if k % 5 == 4:
+            ctx.guarded(lambda: history_case(ctx, recipe), {'recipe': recipe, 'history': True})
     if ctx.searching and ctx.driver is None:
         ctx.evaluated(len(items))
         return
